@@ -234,6 +234,10 @@ endstruc
         ; Save job pointer
         mov     [rsp + _job_save], job
 
+        ;; CRC part of the tag is zero unless Ethernet FCS is computed below
+        mov     tmp_1, [job + _auth_tag_output]
+        mov     dword [tmp_1 + 4], 0
+
         cmp     bytes_to_crc, 4
         jle     %%_skip_crc
         sub     bytes_to_crc, 4         ; subtract size of the CRC itself
@@ -450,6 +454,11 @@ endstruc
         vmovd   DWORD(bip), xmm1
 
 %endif ; CIPHER == CTR
+
+        ;; CRC part of the tag is zero unless Ethernet FCS is computed below
+        mov     job, [rsp + _job_save]
+        mov     tmp_1, [job + _auth_tag_output]
+        mov     dword [tmp_1 + 4], 0
 
         cmp     bytes_to_crc, 4
         jle     %%_skip_crc
